@@ -130,8 +130,15 @@ func cmdCheck(args []string) {
 	sort.Strings(keys)
 	role := map[string]string{}
 	var work []string
+	var preTrusted []string
 	for _, k := range keys {
 		spec := e.specFor(e.funcs[k])
+		if spec != nil && spec.Trusted && hasProp(spec.Props, *prop) {
+			preTrusted = append(preTrusted, k) // a tagged function whose contract is assumed: listed, never verified
+		}
+		if spec != nil && spec.ThoroughOnly && *tier != "thorough" && hasProp(spec.Props, *prop) {
+			preTrusted = append(preTrusted, k+" (assumed in the quick tier; verified in the thorough tier)")
+		}
 		if spec == nil || spec.Inline || spec.Trusted {
 			continue
 		}
@@ -152,6 +159,9 @@ func cmdCheck(args []string) {
 	notes := map[string]bool{}
 	inlinedAll := map[string]bool{}
 	trusted := map[string]bool{}
+	for _, k := range preTrusted {
+		trusted[k] = true
+	}
 	for len(work) > 0 {
 		k := work[0]
 		work = work[1:]
